@@ -65,6 +65,8 @@ type StatusEv struct {
 	Sending, Receiving string
 	Transferred, Total int
 	CSize              int // compressed size of the proposal the report names
+	Title              string
+	Size               int
 	Done               bool
 }
 
@@ -73,10 +75,12 @@ func (s *StatusRec) UpdateStatus(st fbb.Status) {
 	if st.Sending != nil {
 		ev.Sending = st.Sending.MID()
 		ev.CSize = st.Sending.CompressedSize()
+		ev.Title, ev.Size = st.Sending.Title(), st.Sending.Size() // what a GUI shows; read here, unlocked, for the race detector
 	}
 	if st.Receiving != nil {
 		ev.Receiving = st.Receiving.MID()
 		ev.CSize = st.Receiving.CompressedSize()
+		ev.Title, ev.Size = st.Receiving.Title(), st.Receiving.Size()
 	}
 	s.mu.Lock()
 	d := core.TapeAt(s.delays, s.calls, 0)
